@@ -241,6 +241,13 @@ def run(case):
         kw = {"boundary_type": case["btype"]}
         if case["btype"] == "whole":
             kw["box_size"] = case["box"]
+        arg_keep = arg.copy() if hasattr(arg, "copy") else arg
+        # the same table object first serves another list (a copy of this one): no state may be carried in it
+        call(out, "remove_out_of_bounds_particles", lambda: cryomotl.Motl(df.copy()).remove_out_of_bounds_particles(arg, **kw))
+        if hasattr(arg, "equals"):
+            out.check(arg.equals(arg_keep), "oob:dimension_table_modified", "")
+        elif isinstance(arg, np.ndarray):
+            out.check(np.array_equal(arg, arg_keep), "oob:dimension_table_modified", "")
         ok, _ = call(out, "remove_out_of_bounds_particles", lambda: m.remove_out_of_bounds_particles(arg, **kw))
         if ok:
             got_tags = [int(round(v)) for v in m.df[C].to_numpy(dtype=float)[:, IX["subtomo_mean"]]] if sorted(m.df.columns) == sorted(C) else None
